@@ -50,9 +50,9 @@ pub struct Agg {
     pub cases: u64,
     #[serde(default)]
     pub cases_distinct: u64,
-    /// the child stopped at this index because the execution spun without reaching a seam
+    /// executions whose child process died (harness error, never a property verdict)
     #[serde(default)]
-    pub aborted_at: Option<u64>,
+    pub crashed: Vec<String>,
 }
 
 impl Agg {
@@ -91,32 +91,189 @@ impl Agg {
         self.busy_s += o.busy_s;
         self.cases += o.cases;
         self.cases_distinct += o.cases_distinct;
+        self.crashed.extend(o.crashed);
     }
 }
 
 // ------------------------------------------------------------------------------------------
-// watchdog: a simulated execution that stops reaching seams is an infinite loop in the code
-// under test (nothing in the simulator can pre-empt it)
+// isolated executions
+//
+// Every simulated execution runs in a forked child of the calling process: process-global state
+// of the code under test (statics, lazily initialised caches, the log facade's max level) starts
+// from the same image every time, exactly as a freshly exec'ed server or client would, and an
+// execution that stops reaching seams (an infinite loop in the code under test, which nothing
+// inside a cooperative simulator can pre-empt) is killed after SPIN_LIMIT_S of wall-clock time.
 // ------------------------------------------------------------------------------------------
 
 pub const SPIN_LIMIT_S: u64 = 20;
-static RUN_STARTED: std::sync::atomic::AtomicU64 = std::sync::atomic::AtomicU64::new(0);
 
-fn now_ms() -> u64 {
-    std::time::SystemTime::now().duration_since(std::time::UNIX_EPOCH).map(|d| d.as_millis() as u64).unwrap_or(1)
+#[derive(Serialize, Deserialize, Clone, Debug, Default)]
+pub struct RunSummary {
+    pub spun: bool,
+    pub spin_task: String,
+    pub spin_steps: u64,
+    pub crashed: Option<String>,
+    pub co: CheckOut,
+    pub scenario: String,
+    pub outcome: String,
+    pub fingerprint: u64,
+    pub hist_hash: u64,
+    pub now: u64,
+    pub steps: u64,
+    pub tape_len: u64,
+    pub tape: Vec<u32>,
+    pub fault_fired: BTreeMap<String, u64>,
+    pub fault_offered: BTreeMap<String, u64>,
+    pub world_probes: BTreeMap<String, u64>,
+    pub trace: Vec<String>,
 }
 
-/// Start the watchdog thread; `on_spin(task name, steps)` runs on that thread and must end the process.
-pub fn start_watchdog(on_spin: impl Fn(String, u64) + Send + 'static) {
-    std::thread::spawn(move || loop {
-        std::thread::sleep(std::time::Duration::from_millis(250));
-        let s = RUN_STARTED.load(std::sync::atomic::Ordering::SeqCst);
-        if s != 0 && now_ms().saturating_sub(s) > SPIN_LIMIT_S * 1000 {
-            let (task, steps) = dsim::RUNNING_TASK.lock().map(|g| g.clone()).unwrap_or_default();
-            on_spin(task, steps);
-            std::process::exit(2);
+#[derive(Clone, Debug)]
+pub enum TapeSpec {
+    Search(u64),
+    Replay(Vec<u32>),
+}
+
+pub struct OneRun {
+    pub out: exec::RunOut,
+    pub co: CheckOut,
+}
+
+/// One execution in *this* process (used inside the forked child only).
+pub fn run_one(prop: &Property, plan: &Plan, tape: dsim::Tape) -> OneRun {
+    let out = exec::run(plan, tape);
+    let co = (prop.check)(plan, &out);
+    OneRun { out, co }
+}
+
+fn summarize(plan: &Plan, r: &OneRun, want_tape: bool, trace_max: usize) -> RunSummary {
+    let w = &r.out.world;
+    RunSummary {
+        spun: false,
+        spin_task: String::new(),
+        spin_steps: 0,
+        crashed: None,
+        co: r.co.clone(),
+        scenario: plan.scenario.clone(),
+        outcome: format!("{:?}", r.out.outcome),
+        fingerprint: w.fingerprint,
+        hist_hash: w.hist_hash,
+        now: w.now,
+        steps: w.steps,
+        tape_len: w.tape.recorded.len() as u64,
+        tape: if want_tape { w.tape.recorded.clone() } else { vec![] },
+        fault_fired: w.fault_fired.iter().map(|(k, v)| (k.to_string(), *v)).collect(),
+        fault_offered: w.fault_offered.iter().map(|(k, v)| (k.to_string(), *v)).collect(),
+        world_probes: w.probes.iter().map(|(k, v)| (k.to_string(), *v)).collect(),
+        trace: if trace_max > 0 { render_trace(&r.out, trace_max) } else { vec![] },
+    }
+}
+
+enum Forked {
+    Data(Vec<u8>),
+    Timeout,
+    Crashed(String),
+}
+
+fn spin_slot() -> *mut u8 {
+    use std::sync::atomic::Ordering;
+    let cur = dsim::SPIN_SLOT.load(Ordering::Relaxed);
+    if !cur.is_null() {
+        return cur;
+    }
+    let p = unsafe { libc::mmap(std::ptr::null_mut(), 4096, libc::PROT_READ | libc::PROT_WRITE, libc::MAP_SHARED | libc::MAP_ANONYMOUS, -1, 0) };
+    if p == libc::MAP_FAILED {
+        return std::ptr::null_mut();
+    }
+    dsim::SPIN_SLOT.store(p as *mut u8, Ordering::Relaxed);
+    p as *mut u8
+}
+
+fn fork_run(f: impl FnOnce() -> Vec<u8>, timeout_s: u64) -> Forked {
+    use std::io::Write;
+    let _ = std::io::stdout().flush();
+    let _ = std::io::stderr().flush();
+    let mut fds = [0i32; 2];
+    if unsafe { libc::pipe(fds.as_mut_ptr()) } != 0 {
+        return Forked::Crashed("pipe() failed".into());
+    }
+    let pid = unsafe { libc::fork() };
+    if pid < 0 {
+        return Forked::Crashed("fork() failed".into());
+    }
+    if pid == 0 {
+        // child: run, write the result, leave without running destructors or flushing inherited buffers
+        unsafe { libc::close(fds[0]) };
+        let data = std::panic::catch_unwind(std::panic::AssertUnwindSafe(f));
+        let code = match data {
+            Ok(d) => {
+                let mut off = 0;
+                while off < d.len() {
+                    let n = unsafe { libc::write(fds[1], d[off..].as_ptr() as *const libc::c_void, d.len() - off) };
+                    if n <= 0 {
+                        break;
+                    }
+                    off += n as usize;
+                }
+                0
+            }
+            Err(_) => 3,
+        };
+        unsafe { libc::_exit(code) };
+    }
+    unsafe { libc::close(fds[1]) };
+    let t0 = Instant::now();
+    let mut buf = Vec::new();
+    let mut chunk = vec![0u8; 1 << 16];
+    let mut timed_out = false;
+    loop {
+        let left = (timeout_s * 1000).saturating_sub(t0.elapsed().as_millis() as u64);
+        if left == 0 {
+            timed_out = true;
+            break;
         }
-    });
+        let mut pfd = libc::pollfd { fd: fds[0], events: libc::POLLIN, revents: 0 };
+        let r = unsafe { libc::poll(&mut pfd, 1, left.min(1000) as i32) };
+        if r < 0 {
+            continue;
+        }
+        if r == 0 {
+            continue;
+        }
+        let n = unsafe { libc::read(fds[0], chunk.as_mut_ptr() as *mut libc::c_void, chunk.len()) };
+        if n > 0 {
+            buf.extend_from_slice(&chunk[..n as usize]);
+        } else if n == 0 {
+            break;
+        } else {
+            break;
+        }
+    }
+    unsafe { libc::close(fds[0]) };
+    if timed_out {
+        unsafe { libc::kill(pid, libc::SIGKILL) };
+    }
+    let mut status = 0i32;
+    unsafe { libc::waitpid(pid, &mut status, 0) };
+    if timed_out {
+        return Forked::Timeout;
+    }
+    if libc::WIFSIGNALED(status) {
+        return Forked::Crashed(format!("killed by signal {}", libc::WTERMSIG(status)));
+    }
+    if libc::WIFEXITED(status) && libc::WEXITSTATUS(status) != 0 {
+        return Forked::Crashed(format!("child exited with status {} (panic in the harness?)", libc::WEXITSTATUS(status)));
+    }
+    Forked::Data(buf)
+}
+
+/// Run `f` in a forked child and bring its (serialisable) result back; None if the child died
+/// or did not finish in time.
+pub fn isolated<T: serde::Serialize + serde::de::DeserializeOwned>(f: impl FnOnce() -> T) -> Option<T> {
+    match fork_run(|| serde_json::to_vec(&f()).unwrap(), SPIN_LIMIT_S) {
+        Forked::Data(d) => serde_json::from_slice(&d).ok(),
+        _ => None,
+    }
 }
 
 pub fn spin_violation(prop: &str, task: &str, steps: u64) -> Violation {
@@ -128,42 +285,71 @@ pub fn spin_violation(prop: &str, task: &str, steps: u64) -> Violation {
     }
 }
 
-pub struct OneRun {
-    pub out: exec::RunOut,
-    pub co: CheckOut,
+/// Run one execution in a forked child and return its summary.
+pub fn run_isolated(prop: &Property, plan: &Plan, tape: TapeSpec, want_tape: bool, trace_max: usize) -> RunSummary {
+    let slot = spin_slot();
+    if !slot.is_null() {
+        unsafe { std::ptr::write_bytes(slot, 0, 128) };
+    }
+    let res = fork_run(
+        || {
+            let t = match &tape {
+                TapeSpec::Search(seed) => dsim::Tape::search(*seed),
+                TapeSpec::Replay(cells) => dsim::Tape::replay(cells.clone()),
+            };
+            let r = run_one(prop, plan, t);
+            serde_json::to_vec(&summarize(plan, &r, want_tape, trace_max)).unwrap()
+        },
+        SPIN_LIMIT_S,
+    );
+    match res {
+        Forked::Data(d) => match serde_json::from_slice::<RunSummary>(&d) {
+            Ok(s) => s,
+            Err(e) => RunSummary { crashed: Some(format!("unreadable result from the execution ({} bytes): {}", d.len(), e)), scenario: plan.scenario.clone(), ..Default::default() },
+        },
+        Forked::Timeout => {
+            let (task, steps) = if slot.is_null() {
+                (String::new(), 0)
+            } else {
+                unsafe {
+                    let n = (*slot as usize).min(119);
+                    let name = String::from_utf8_lossy(std::slice::from_raw_parts(slot.add(1), n)).to_string();
+                    let mut b = [0u8; 8];
+                    std::ptr::copy_nonoverlapping(slot.add(120), b.as_mut_ptr(), 8);
+                    (name, u64::from_le_bytes(b))
+                }
+            };
+            let mut s = RunSummary { spun: true, spin_task: task.clone(), spin_steps: steps, scenario: plan.scenario.clone(), outcome: "Spinning".into(), ..Default::default() };
+            s.co.violations.push(spin_violation(prop.id, &task, steps));
+            s
+        }
+        Forked::Crashed(why) => RunSummary { crashed: Some(why), scenario: plan.scenario.clone(), ..Default::default() },
+    }
 }
 
-pub fn run_one(prop: &Property, plan: &Plan, tape: dsim::Tape) -> OneRun {
-    RUN_STARTED.store(now_ms(), std::sync::atomic::Ordering::SeqCst);
-    let out = exec::run(plan, tape);
-    let co = (prop.check)(plan, &out);
-    RUN_STARTED.store(0, std::sync::atomic::Ordering::SeqCst);
-    OneRun { out, co }
-}
-
-fn absorb(agg: &mut Agg, plan: &Plan, idx: u64, r: &OneRun) {
+fn absorb(agg: &mut Agg, plan: &Plan, idx: u64, r: &RunSummary) {
     agg.evaluations += 1;
     *agg.scenarios.entry(plan.scenario.clone()).or_insert(0) += 1;
-    *agg.outcomes.entry(format!("{:?}", r.out.outcome)).or_insert(0) += 1;
+    *agg.outcomes.entry(r.outcome.clone()).or_insert(0) += 1;
     if r.co.nontrivial {
         agg.nontrivial += 1;
-        agg.fingerprints.insert(r.out.world.fingerprint);
+        agg.fingerprints.insert(r.fingerprint);
     }
     if let Some((c, d)) = r.co.cases {
         agg.cases += c;
         agg.cases_distinct += d;
     }
-    agg.sim_ns += r.out.world.now as u128;
-    agg.steps += r.out.world.steps;
-    agg.tape_cells += r.out.world.tape.recorded.len() as u64;
-    for (k, v) in &r.out.world.fault_fired {
-        *agg.faults_fired.entry(k.to_string()).or_insert(0) += v;
+    agg.sim_ns += r.now as u128;
+    agg.steps += r.steps;
+    agg.tape_cells += r.tape_len;
+    for (k, v) in &r.fault_fired {
+        *agg.faults_fired.entry(k.clone()).or_insert(0) += v;
     }
-    for (k, v) in &r.out.world.fault_offered {
-        *agg.faults_offered.entry(k.to_string()).or_insert(0) += v;
+    for (k, v) in &r.fault_offered {
+        *agg.faults_offered.entry(k.clone()).or_insert(0) += v;
     }
-    for (k, v) in &r.out.world.probes {
-        *agg.probes.entry(k.to_string()).or_insert(0) += v;
+    for (k, v) in &r.world_probes {
+        *agg.probes.entry(k.clone()).or_insert(0) += v;
     }
     for (k, v) in &r.co.probes {
         *agg.probes.entry(k.clone()).or_insert(0) += v;
@@ -179,6 +365,9 @@ fn absorb(agg: &mut Agg, plan: &Plan, idx: u64, r: &OneRun) {
     if !r.co.violations.is_empty() {
         agg.violating_runs += 1;
     }
+    if let Some(why) = &r.crashed {
+        agg.crashed.push(format!("idx {} seed {}: {}", idx, plan.seed, why));
+    }
     for v in &r.co.violations {
         let same = agg.found.iter().filter(|f| f.violation.signature == v.signature).count();
         if same < 3 && agg.found.len() < 60 {
@@ -187,25 +376,10 @@ fn absorb(agg: &mut Agg, plan: &Plan, idx: u64, r: &OneRun) {
     }
 }
 
-/// child process: run indices start, start+stride, ... (count of them)
+/// child process: run indices start, start+stride, ... below total
 pub fn worker(id: &str, tier: Tier, base: u64, start: u64, stride: u64, total: u64, out_path: &str, deadline_s: f64) {
     let prop = scen::find(id).expect("unknown property");
-    let agg = std::sync::Arc::new(std::sync::Mutex::new(Agg::default()));
-    let cur = std::sync::Arc::new(std::sync::Mutex::new((0u64, 0u64, String::new())));
-    {
-        let (agg, cur, out_path, id) = (agg.clone(), cur.clone(), out_path.to_string(), id.to_string());
-        start_watchdog(move |task, steps| {
-            let (idx, seed, scenario) = cur.lock().map(|g| g.clone()).unwrap_or_default();
-            let mut a = agg.lock().map(|g| g.clone()).unwrap_or_default();
-            a.evaluations += 1;
-            a.violating_runs += 1;
-            *a.scenarios.entry(scenario).or_insert(0) += 1;
-            a.found.push(Found { seed, idx, violation: spin_violation(&id, &task, steps) });
-            a.aborted_at = Some(idx);
-            let _ = std::fs::write(&out_path, serde_json::to_vec(&a).unwrap());
-            std::process::exit(0);
-        });
-    }
+    let mut agg = Agg::default();
     let t0 = Instant::now();
     let mut idx = start;
     while idx < total {
@@ -214,14 +388,12 @@ pub fn worker(id: &str, tier: Tier, base: u64, start: u64, stride: u64, total: u
         }
         let seed = scen::run_seed(base, idx);
         let plan = (prop.gen)(seed, idx, tier);
-        *cur.lock().unwrap() = (idx, plan.seed, plan.scenario.clone());
-        let r = run_one(&prop, &plan, dsim::Tape::search(plan.seed));
-        absorb(&mut agg.lock().unwrap(), &plan, idx, &r);
+        let r = run_isolated(&prop, &plan, TapeSpec::Search(plan.seed), false, 0);
+        absorb(&mut agg, &plan, idx, &r);
         idx += stride;
     }
-    let mut a = agg.lock().unwrap().clone();
-    a.busy_s = t0.elapsed().as_secs_f64();
-    std::fs::write(out_path, serde_json::to_vec(&a).unwrap()).expect("write child result");
+    agg.busy_s = t0.elapsed().as_secs_f64();
+    std::fs::write(out_path, serde_json::to_vec(&agg).unwrap()).expect("write child result");
 }
 
 // ------------------------------------------------------------------------------------------
@@ -300,8 +472,12 @@ pub fn render_trace(out: &exec::RunOut, max: usize) -> Vec<String> {
 // minimisation
 // ------------------------------------------------------------------------------------------
 
-fn reproduces(prop: &Property, plan: &Plan, tape: &[u32], signature: &str) -> Option<OneRun> {
-    let r = run_one(prop, plan, dsim::Tape::replay(tape.to_vec()));
+fn reproduces(prop: &Property, plan: &Plan, tape: &[u32], signature: &str) -> Option<RunSummary> {
+    reproduces_full(prop, plan, tape, signature, false, 0)
+}
+
+fn reproduces_full(prop: &Property, plan: &Plan, tape: &[u32], signature: &str, want_tape: bool, trace_max: usize) -> Option<RunSummary> {
+    let r = run_isolated(prop, plan, TapeSpec::Replay(tape.to_vec()), want_tape, trace_max);
     if r.co.violations.iter().any(|v| v.signature == signature) {
         Some(r)
     } else {
@@ -418,17 +594,6 @@ pub fn minimise(prop: &Property, plan: &Plan, tape: &[u32], signature: &str, bud
             block /= 2;
         }
     }
-    // shorten the horizon to just past the last needed step
-    {
-        let mut p2 = plan.clone();
-        let need = p2.last_step_us() / 1000 + 400;
-        if need < p2.world.horizon_ms {
-            p2.world.horizon_ms = need;
-            if reproduces(prop, &p2, &tape, signature).is_some() {
-                plan = p2;
-            }
-        }
-    }
     (plan, tape)
 }
 
@@ -440,22 +605,22 @@ pub fn repo_tree() -> String {
 
 pub fn write_replay(prop: &Property, plan: &Plan, tape: &[u32], v: &Violation) -> Option<PathBuf> {
     // final run: recorded tape, digest, trace
-    let r = reproduces(prop, plan, tape, &v.signature)?;
+    let r = reproduces_full(prop, plan, tape, &v.signature, true, 400)?;
     let viol = r.co.violations.iter().find(|x| x.signature == v.signature).cloned().unwrap();
-    let digest = format!("{:016x}", r.out.world.hist_hash);
+    let digest = if r.spun { "spinning".to_string() } else { format!("{:016x}", r.hist_hash) };
     let rep = Replay {
         property: prop.id.to_string(),
         seed: plan.seed,
         plan: plan.clone(),
-        tape: r.out.world.tape.recorded.clone(),
+        tape: if r.spun { tape.to_vec() } else { r.tape.clone() },
         violation: viol,
         history_digest: digest.clone(),
-        events: render_trace(&r.out, 400),
+        events: r.trace.clone(),
         repo_tree: repo_tree(),
     };
     let dir = verif_dir().join("replays");
     std::fs::create_dir_all(&dir).ok()?;
-    let path = dir.join(format!("{}-{}-{}.json", prop.id, plan.seed, &digest[..8]));
+    let path = dir.join(format!("{}-{}-{}.json", prop.id, plan.seed, &digest[..8.min(digest.len())]));
     std::fs::write(&path, serde_json::to_vec_pretty(&rep).unwrap()).ok()?;
     Some(path)
 }
@@ -479,21 +644,13 @@ pub fn replay_file(path: &str) -> i32 {
             return 2;
         }
     };
-    {
-        let (p, path) = (rep.property.clone(), path.to_string());
-        let expected_spin = rep.violation.class == "task_spins_without_io";
-        start_watchdog(move |task, steps| {
-            let v = spin_violation(&p, &task, steps);
-            println!("reproduced: {} — {}", v.signature, v.detail);
-            println!("VIOLATION property={} replay={}", p, path);
-            std::process::exit(if expected_spin { 1 } else { 2 });
-        });
+    let r = run_isolated(&prop, &rep.plan, TapeSpec::Replay(rep.tape.clone()), false, 80);
+    if let Some(why) = &r.crashed {
+        eprintln!("HARNESS ERROR: the execution died: {}", why);
+        return 2;
     }
-    // a recorded spin is replayed in search mode from the plan's seed (no tape was recorded)
-    let tape = if rep.violation.class == "task_spins_without_io" { dsim::Tape::search(rep.plan.seed) } else { dsim::Tape::replay(rep.tape.clone()) };
-    let r = run_one(&prop, &rep.plan, tape);
-    let digest = format!("{:016x}", r.out.world.hist_hash);
-    for l in render_trace(&r.out, 80) {
+    let digest = if r.spun { "spinning".to_string() } else { format!("{:016x}", r.hist_hash) };
+    for l in &r.trace {
         println!("{}", l);
     }
     match r.co.violations.iter().find(|v| v.signature == rep.violation.signature) {
@@ -540,40 +697,33 @@ pub fn check(id: &str, tier: Tier) -> i32 {
         Tier::Quick => 150.0,
         Tier::Thorough => 2400.0,
     });
-    let spawn = |k: u64, start: u64, gen: u32| {
-        let out = tmp.join(format!("{}-{}-{}-{}.json", id, std::process::id(), k, gen));
+    let mut kids = Vec::new();
+    for k in 0..n.min(total.max(1)) {
+        let out = tmp.join(format!("{}-{}-{}.json", id, std::process::id(), k));
         let child = std::process::Command::new(&exe)
-            .args(["worker", id, if tier == Tier::Quick { "quick" } else { "thorough" }, &base.to_string(), &start.to_string(), &n.to_string(), &total.to_string(), out.to_str().unwrap(), &deadline_s.to_string()])
+            .args(["worker", id, if tier == Tier::Quick { "quick" } else { "thorough" }, &base.to_string(), &k.to_string(), &n.to_string(), &total.to_string(), out.to_str().unwrap(), &deadline_s.to_string()])
             .env("TZ", "UTC")
             .spawn()
             .expect("spawn worker");
-        (child, out, gen)
-    };
-    let mut kids = Vec::new();
-    for k in 0..n.min(total.max(1)) {
-        kids.push(spawn(k, k, 0));
+        kids.push((child, out));
     }
     let mut agg = Agg::default();
     let mut harness_error = false;
-    while let Some((mut c, out, gen)) = kids.pop() {
+    for (mut c, out) in kids {
         let st = c.wait().expect("wait");
         if !st.success() {
             eprintln!("HARNESS ERROR: worker exited with {:?}", st);
             harness_error = true;
         }
         match std::fs::read(&out).ok().and_then(|b| serde_json::from_slice::<Agg>(&b).ok()) {
-            Some(a) => {
-                // a child that met a spinning execution stops there: carry on after that index
-                if let Some(at) = a.aborted_at {
-                    if gen < 8 && at + n < total {
-                        kids.push(spawn(at % n, at + n, gen + 1));
-                    }
-                }
-                agg.merge(a)
-            }
+            Some(a) => agg.merge(a),
             None => harness_error = true,
         }
         let _ = std::fs::remove_file(&out);
+    }
+    for c in &agg.crashed {
+        eprintln!("HARNESS ERROR: {}", c);
+        harness_error = true;
     }
     if harness_error {
         return 2;
@@ -604,27 +754,16 @@ pub fn check(id: &str, tier: Tier) -> i32 {
         minimised += 1;
         // regenerate, re-run in search mode to obtain the tape, minimise, write the replay file
         let plan = (prop.gen)(scen::run_seed(base, f.idx), f.idx, tier);
-        if f.violation.class == "task_spins_without_io" {
-            // cannot be re-executed in this process (it would spin here too): the replay file holds
-            // the plan; `simcheck replay` runs it under the same watchdog
-            let rep = Replay { property: prop.id.to_string(), seed: plan.seed, plan: plan.clone(), tape: vec![], violation: f.violation.clone(), history_digest: "spinning".into(), events: vec![], repo_tree: repo_tree() };
-            let dir = verif_dir().join("replays");
-            let _ = std::fs::create_dir_all(&dir);
-            let path = dir.join(format!("{}-{}-spin.json", prop.id, plan.seed));
-            let _ = std::fs::write(&path, serde_json::to_vec_pretty(&rep).unwrap());
-            println!("  {} — {}", sig, f.violation.detail);
-            println!("VIOLATION property={} replay={}", f.violation.property, path.display());
-            continue;
-        }
-        let first = run_one(&prop, &plan, dsim::Tape::search(plan.seed));
-        let tape = first.out.world.tape.recorded.clone();
+        let first = run_isolated(&prop, &plan, TapeSpec::Search(plan.seed), true, 0);
+        let tape = first.tape.clone();
         if !first.co.violations.iter().any(|v| &v.signature == sig) {
             eprintln!("HARNESS ERROR: violation {} of seed {} did not recur in the parent process", sig, f.seed);
             return 2;
         }
         // at most five violations are minimised per check; the others are reported with the
         // plan and tape as found
-        let (mp, mt) = if do_minimise { minimise(&prop, &plan, &tape, sig, 20.0) } else { (plan.clone(), tape.clone()) };
+        // (a spinning execution costs SPIN_LIMIT_S per candidate: it is reported as found)
+        let (mp, mt) = if do_minimise && !first.spun { minimise(&prop, &plan, &tape, sig, 20.0) } else { (plan.clone(), tape.clone()) };
         match write_replay(&prop, &mp, &mt, &f.violation) {
             Some(path) => {
                 // replay the minimised file in a fresh process; it must fail the same way
@@ -733,10 +872,12 @@ pub fn determinism(id: &str, tier: Tier, start: u64, count: u64) -> (bool, Vec<(
     for idx in start..start + count {
         let seed = scen::run_seed(base, idx);
         let plan = (prop.gen)(seed, idx, tier);
-        let a = run_one(&prop, &plan, dsim::Tape::search(plan.seed));
-        let b = run_one(&prop, &plan, dsim::Tape::search(plan.seed));
-        let c = run_one(&prop, &plan, dsim::Tape::replay(a.out.world.tape.recorded.clone()));
-        let (da, db, dc) = (a.out.world.hist_hash, b.out.world.hist_hash, c.out.world.hist_hash);
+        let a = run_isolated(&prop, &plan, TapeSpec::Search(plan.seed), true, 0);
+        // b: a second forked execution; c: replay from a's tape; d: the same execution in *this*
+        // process, after whatever ran here before (fork isolation must make no difference)
+        let b = run_isolated(&prop, &plan, TapeSpec::Search(plan.seed), false, 0);
+        let c = run_isolated(&prop, &plan, TapeSpec::Replay(a.tape.clone()), false, 0);
+        let (da, db, dc) = (a.hist_hash, b.hist_hash, c.hist_hash);
         let va: Vec<_> = a.co.violations.iter().map(|v| v.signature.clone()).collect();
         let vb: Vec<_> = b.co.violations.iter().map(|v| v.signature.clone()).collect();
         let vc: Vec<_> = c.co.violations.iter().map(|v| v.signature.clone()).collect();
